@@ -22,6 +22,7 @@ type concCfg struct {
 	Users      bool       `json:"users,omitempty"`
 	SharedH    bool       `json:"shared_handle,omitempty"`
 	TempDomain int        `json:"temp_domain,omitempty"`
+	Windows    bool       `json:"windows_typed,omitempty"` // the instance emulates Windows (builds with avfs_setostype only)
 	Focus      int        `json:"focus,omitempty"`    // 0: whole path pool; 1-3: one directory and its entries only
 	PreOpen    []string   `json:"pre_open,omitempty"` // per client: path held open on handle 0 when the concurrent phase starts ("" = none)
 	Strategy   int        `json:"strategy"`
@@ -49,13 +50,18 @@ const sharedSlot = fsx.MaxHandles - 1
 func buildWorld(cfg *concCfg, nclients int) *world {
 	w := &world{cfg: cfg}
 
+	ost := avfs.OsLinux
+	if cfg.Windows {
+		ost = avfs.OsWindows
+	}
+
 	switch cfg.FS {
 	case "orefafs":
-		w.ore = orefafs.NewWithOptions(&orefafs.Options{OSType: avfs.OsLinux})
+		w.ore = orefafs.NewWithOptions(&orefafs.Options{OSType: ost})
 		w.fs = w.ore
 	default:
-		w.idm = memidm.NewWithOptions(&memidm.Options{OSType: avfs.OsLinux})
-		w.mem = memfs.NewWithOptions(&memfs.Options{OSType: avfs.OsLinux, Idm: w.idm})
+		w.idm = memidm.NewWithOptions(&memidm.Options{OSType: ost})
+		w.mem = memfs.NewWithOptions(&memfs.Options{OSType: ost, Idm: w.idm})
 		w.fs = w.mem
 	}
 
